@@ -278,63 +278,254 @@ func runTAB02(p *Prog, r *RuleRun) {
 	} else {
 		r.Unknown("writer:word-by-type", wpos, "cannot tell which value is written into the length/CRC word")
 	}
-	// reader: switch on buf[0]
+	// reader: evaluated, not pattern-matched: the reader's CFG is walked for each frame type value (and a short
+	// buffer); what is returned on each path is compared with the documented layout
 	rpos := p.Position(rd.Pos())
-	caseAssign := map[int64]map[string]string{} // type value -> field assigned from [4:8]
-	zeroCheck := false
-	defaultErr := false
-	ast.Inspect(rd.Body, func(n ast.Node) bool {
-		sw, ok := n.(*ast.SwitchStmt)
-		if !ok {
-			return true
+	rfn := p.Func("segment", rd.Name.Name)
+	if rfn == nil || len(rfn.Params) != 1 {
+		r.Unknown("reader:anchor", rpos, "SSA function of the frame header reader not found")
+		return
+	}
+	buf := rfn.Params[0]
+	isBufSlice := func(v ssa.Value, lo, hi int64) bool {
+		sl, ok := v.(*ssa.Slice)
+		if !ok || sl.X != ssa.Value(buf) {
+			return false
 		}
-		if ie, ok := sw.Tag.(*ast.IndexExpr); !ok || func() bool { k, c := constInt(info, ie.Index); return !c || k != 0 }() {
-			return true
-		}
-		for _, st := range sw.Body.List {
-			cc := st.(*ast.CaseClause)
-			if cc.List == nil {
-				for _, s := range cc.Body {
-					if rs, ok := s.(*ast.ReturnStmt); ok && len(rs.Results) == 2 {
-						if id, ok := rs.Results[1].(*ast.Ident); !ok || id.Name != "nil" {
-							defaultErr = true
-						}
-					}
-				}
-				continue
+		l, h := int64(0), int64(-1)
+		if sl.Low != nil {
+			c, ok := sl.Low.(*ssa.Const)
+			if !ok {
+				return false
 			}
-			for _, e := range cc.List {
-				tv, ok := constInt(info, e)
-				if !ok {
-					continue
-				}
-				m := map[string]string{}
-				for _, o := range extractLayout(info, cc) {
-					if o.Kind == "get" && o.Lo == 4 && o.Hi == 8 && o.Width == 32 && o.Order == "LittleEndian" {
-						m[o.Value] = "LE32[4:8]"
+			l = c.Int64()
+		}
+		if sl.High != nil {
+			c, ok := sl.High.(*ssa.Const)
+			if !ok {
+				return false
+			}
+			h = c.Int64()
+		}
+		return l == lo && h == hi
+	}
+	hdrLen, _ := constU64(p, "segment", "frameHeaderLen")
+	// zeroCmp: bytes.Equal(buf[:frameHeaderLen], <all-zero package array>[:]), directly or in a helper given buf
+	var zeroCmp func(c *ssa.Call, depth int) bool
+	zeroCmp = func(c *ssa.Call, depth int) bool {
+		if eventName(c) == "bytes.Equal" && len(c.Call.Args) == 2 {
+			zero, data := false, false
+			for _, a := range c.Call.Args {
+				if sl, ok := a.(*ssa.Slice); ok {
+					if g, ok := sl.X.(*ssa.Global); ok {
+						if at, ok := g.Type().(*types.Pointer).Elem().Underlying().(*types.Array); ok && uint64(at.Len()) == hdrLen && !globalWritten(p, g) {
+							zero = true
+						}
+					} else if _, isParam := sl.X.(*ssa.Parameter); isParam {
+						if h, ok := sl.High.(*ssa.Const); ok && uint64(h.Int64()) == hdrLen && sl.Low == nil {
+							data = true
+						}
 					}
 				}
-				caseAssign[tv] = m
-				if tv == 0 {
-					ast.Inspect(cc, func(n2 ast.Node) bool {
-						if ce, ok := n2.(*ast.CallExpr); ok {
-							if se, ok := ce.Fun.(*ast.SelectorExpr); ok && se.Sel.Name == "Equal" && len(ce.Args) == 2 {
-								zeroCheck = true
-							}
-						}
-						return true
-					})
+			}
+			return zero && data
+		}
+		callee := c.Call.StaticCallee()
+		if depth > 2 || callee == nil || pkgRelOf(p, callee) != "segment" || len(c.Call.Args) != 1 || c.Call.Args[0] != ssa.Value(buf) && depth == 0 {
+			return false
+		}
+		for _, b := range callee.Blocks {
+			for _, ins := range b.Instrs {
+				if c2, ok := ins.(*ssa.Call); ok && zeroCmp(c2, depth+1) {
+					return true
 				}
 			}
 		}
 		return false
-	})
-	r.Check(defaultErr, "reader:unknown-type", rpos, "unknown frame types are an error", "the frame header reader does not reject unknown frame types")
-	r.Check(zeroCheck, "reader:zero-header", rpos, "type 0 is accepted only when the whole header is zero (end of written data)", "the reader does not distinguish an all-zero header (stop) from a zero type with other bytes set (corrupt)")
-	for _, tv := range []int64{1, 2} {
-		r.Check(caseAssign[tv]["field:len"] != "", fmt.Sprintf("reader:type%d", tv), rpos, "entry/index frames: bytes 4..7 are the length", fmt.Sprintf("frame type %d does not read its length from LE32 bytes 4..7: %v", tv, caseAssign[tv]))
 	}
-	r.Check(caseAssign[3]["field:crc"] != "", "reader:type3", rpos, "commit frames: bytes 4..7 are the CRC", fmt.Sprintf("commit frames do not read their CRC from LE32 bytes 4..7: %v", caseAssign[3]))
+	rspec := &fdSpec{
+		Symbol: func(v ssa.Value) string {
+			switch x := v.(type) {
+			case *ssa.UnOp:
+				if ia, ok := x.X.(*ssa.IndexAddr); ok && x.Op == token.MUL && ia.X == ssa.Value(buf) {
+					if c, ok := ia.Index.(*ssa.Const); ok && c.Int64() == 0 {
+						return "T"
+					}
+				}
+			case *ssa.Call:
+				if isBuiltinCall(x, "len") && x.Call.Args[0] == ssa.Value(buf) {
+					return "L"
+				}
+			}
+			return ""
+		},
+		Effect: func(ins ssa.Instruction, eval func(ssa.Value) fdVal) (string, bool) {
+			switch x := ins.(type) {
+			case *ssa.Store:
+				fa, ok := x.Addr.(*ssa.FieldAddr)
+				if !ok {
+					return "", false
+				}
+				fv := fieldOfAddr(fa)
+				if fv == nil || !strings.HasSuffix(fa.X.Type().String(), "segment.frameHeader") {
+					return "", false
+				}
+				desc := "other"
+				switch val := x.Val.(type) {
+				case *ssa.UnOp:
+					if ia, ok := val.X.(*ssa.IndexAddr); ok && ia.X == ssa.Value(buf) {
+						if c, ok := ia.Index.(*ssa.Const); ok {
+							desc = fmt.Sprintf("buf[%d]", c.Int64())
+						}
+					}
+				case *ssa.Call:
+					if eventName(val) == "binary.littleEndian.Uint32" && isBufSlice(val.Call.Args[len(val.Call.Args)-1], 4, 8) {
+						desc = "LE32[4:8]"
+					}
+				case *ssa.Const:
+					desc = "const"
+				}
+				return fmt.Sprintf("%s.%s=%s", fa.X.Name(), fv.Name(), desc), false
+			case *ssa.Call:
+				if zeroCmp(x, 0) {
+					return "ZEROCHECK", false
+				}
+			}
+			return "", false
+		},
+		Return: func(ret *ssa.Return, res []ssa.Value, eval func(ssa.Value) fdVal) string {
+			who := "?"
+			switch x := ret.Results[0].(type) {
+			case *ssa.UnOp:
+				who = x.X.Name()
+			case *ssa.Const:
+				who = "zero"
+			}
+			e := "err"
+			if c, ok := ret.Results[1].(*ssa.Const); ok && c.IsNil() {
+				e = "nil"
+			}
+			return "ret(" + who + "," + e + ")"
+		}}
+	// outcome of one trace: error?, fields of the returned header, zero check seen
+	type outcome struct {
+		err, zc bool
+		flds    map[string]string
+	}
+	parse := func(t string) outcome {
+		parts := strings.Split(t, " > ")
+		last := parts[len(parts)-1]
+		o := outcome{flds: map[string]string{}}
+		who := strings.TrimSuffix(strings.TrimPrefix(last, "ret("), ")")
+		o.err = strings.HasSuffix(who, ",err")
+		who = who[:strings.LastIndex(who, ",")]
+		for _, l := range parts[:len(parts)-1] {
+			if l == "ZEROCHECK" {
+				o.zc = true
+				continue
+			}
+			if strings.HasPrefix(l, who+".") {
+				kv := strings.SplitN(strings.TrimPrefix(l, who+"."), "=", 2)
+				o.flds[kv[0]] = kv[1]
+			}
+		}
+		return o
+	}
+	run := func(T, L int64) []outcome {
+		var out []outcome
+		for _, t := range fdRun(rfn, rspec, map[string]int64{"T": T, "L": L}) {
+			out = append(out, parse(t))
+		}
+		return out
+	}
+	// short buffer
+	shortOK := true
+	for _, o := range run(1, int64(hdrLen)-1) {
+		if !o.err {
+			shortOK = false
+		}
+	}
+	r.Check(shortOK && hdrLen == 8, "reader:short-buffer", rpos, "a buffer shorter than the 8-byte header is an error", "the frame header reader accepts a buffer shorter than the header")
+	// unknown types
+	defaultErr := true
+	for _, T := range []int64{4, 5, 127, 255} {
+		outs := run(T, int64(hdrLen))
+		if len(outs) == 0 {
+			defaultErr = false
+		}
+		for _, o := range outs {
+			if !o.err {
+				defaultErr = false
+			}
+		}
+	}
+	r.Check(defaultErr, "reader:unknown-type", rpos, "unknown frame types are an error", "the frame header reader does not reject unknown frame types")
+	// type 0: accepted (as an empty header) exactly when the whole header is zero
+	accept, reject, stray := false, false, false
+	for _, o := range run(0, int64(hdrLen)) {
+		switch {
+		case !o.zc:
+			stray = true // an outcome for type 0 that never looked at the other bytes
+		case o.err:
+			reject = true
+		default:
+			accept = true
+			for _, v := range o.flds {
+				if v != "const" {
+					stray = true
+				}
+			}
+		}
+	}
+	r.Check(accept && reject && !stray, "reader:zero-header", rpos, "type 0 is accepted only when the whole header is zero (end of written data)", "the reader does not distinguish an all-zero header (stop) from a zero type with other bytes set (corrupt)")
+	for _, tv := range []int64{1, 2, 3} {
+		word, other := "len", "crc"
+		what := "entry/index frames: bytes 4..7 are the length"
+		if tv == 3 {
+			word, other = "crc", "len"
+			what = "commit frames: bytes 4..7 are the CRC"
+		}
+		outs := run(tv, int64(hdrLen))
+		ok := len(outs) > 0
+		var got []string
+		for _, o := range outs {
+			if o.err || o.flds["typ"] != "buf[0]" || o.flds[word] != "LE32[4:8]" || (o.flds[other] != "" && o.flds[other] != "const") {
+				ok = false
+			}
+			got = append(got, fmt.Sprintf("err=%v %v", o.err, o.flds))
+		}
+		r.Check(ok, fmt.Sprintf("reader:type%d", tv), rpos, what, fmt.Sprintf("frame type %d: want typ=buf[0], %s=LE32 of bytes 4..7 and no error; the reader yields %v", tv, word, got))
+	}
+}
+
+// globalWritten: is any element of / the whole package-level variable g stored to by production code?
+func globalWritten(p *Prog, g *ssa.Global) bool {
+	for _, fn := range p.Funcs {
+		for _, b := range fn.Blocks {
+			for _, ins := range b.Instrs {
+				st, ok := ins.(*ssa.Store)
+				if !ok {
+					continue
+				}
+				addr := st.Addr
+				for {
+					switch x := addr.(type) {
+					case *ssa.IndexAddr:
+						addr = x.X
+						continue
+					case *ssa.FieldAddr:
+						addr = x.X
+						continue
+					}
+					break
+				}
+				if addr == ssa.Value(g) {
+					return true
+				}
+			}
+		}
+	}
+	return false
 }
 
 // ---------------------------------------------------------------- TAB-03
@@ -455,61 +646,93 @@ func runTAB03(p *Prog, r *RuleRun) {
 		fmt.Sprintf("index frame writer: LE32=%v start=%d (want %d) stride=%d (want 4)", put32, start, fhl, stride))
 	r.Check(pads, "writer:zero-pad", wpos, "the alignment word after an odd number of index entries is explicitly zeroed",
 		"the index frame writer never zeroes the 4 alignment bytes that follow an odd number of entries: the frame is encoded into a reused buffer, so stale bytes of an earlier batch end up on disk where the format documents NULL padding")
-	// reader: IndexStart + (idx - BaseIndex)*4, read 4 bytes LE32
-	rd := findFuncDecl(pk, "Reader.findFrameOffset")
-	if rd == nil {
-		// by content: the method of Reader that mentions IndexStart
-		for _, f := range pk.Syntax {
-			for _, d := range f.Decls {
-				if fd, ok := d.(*ast.FuncDecl); ok && fd.Body != nil && fd.Recv != nil {
-					uses := false
-					ast.Inspect(fd.Body, func(n ast.Node) bool {
-						if se, ok := n.(*ast.SelectorExpr); ok && se.Sel.Name == "IndexStart" {
-							uses = true
+	// reader: ReadAt(4-byte buffer, IndexStart + (idx - BaseIndex)*4) then little-endian uint32 of that buffer; matched on
+	// the SSA expression (operand order, temporaries, named constants and helper functions do not matter)
+	rroot := p.Func("segment", "Reader.findFrameOffset")
+	if rroot == nil {
+		r.Unknown("anchor:index-reader", "?", "(*segment.Reader).findFrameOffset not found")
+		return
+	}
+	rpos := p.Position(rroot.Pos())
+	strip := func(v ssa.Value) ssa.Value {
+		for {
+			switch x := v.(type) {
+			case *ssa.Convert:
+				v = x.X
+				continue
+			case *ssa.ChangeType:
+				v = x.X
+				continue
+			}
+			return v
+		}
+	}
+	either := func(bo *ssa.BinOp, f func(a, b ssa.Value) bool) bool {
+		return f(strip(bo.X), strip(bo.Y)) || f(strip(bo.Y), strip(bo.X))
+	}
+	isIdxMinusBase := func(v ssa.Value) bool {
+		bo, ok := v.(*ssa.BinOp)
+		if !ok || bo.Op != token.SUB {
+			return false
+		}
+		_, isParam := strip(bo.X).(*ssa.Parameter)
+		return isParam && fieldLoadName(strip(bo.Y)) == "BaseIndex"
+	}
+	isEntryOff := func(v ssa.Value) bool {
+		bo, ok := v.(*ssa.BinOp)
+		if !ok {
+			return false
+		}
+		switch bo.Op {
+		case token.MUL:
+			return either(bo, func(a, b ssa.Value) bool {
+				c, ok := b.(*ssa.Const)
+				return ok && c.Int64() == 4 && isIdxMinusBase(a)
+			})
+		case token.SHL:
+			c, ok := strip(bo.Y).(*ssa.Const)
+			return ok && c.Int64() == 2 && isIdxMinusBase(strip(bo.X))
+		}
+		return false
+	}
+	mul4, subBase, addStart, get32 := false, false, false, false
+	for fn := range p.reachableFuncs(rroot) {
+		if pkgRelOf(p, fn) != "segment" {
+			continue
+		}
+		for _, b := range fn.Blocks {
+			for _, ins := range b.Instrs {
+				c, ok := ins.(*ssa.Call)
+				if !ok || eventName(c) != "types.ReadableFile.ReadAt" {
+					continue
+				}
+				off, ok := strip(c.Call.Args[1]).(*ssa.BinOp)
+				if !ok || off.Op != token.ADD {
+					continue
+				}
+				if !either(off, func(a, b ssa.Value) bool { return fieldLoadName(a) == "IndexStart" && isEntryOff(b) }) {
+					continue
+				}
+				addStart, mul4, subBase = true, true, true
+				// the 4-byte buffer read is what gets decoded as LE32
+				if sl, ok := c.Call.Args[0].(*ssa.Slice); ok {
+					if al, ok := sl.X.(*ssa.Alloc); ok {
+						if at, ok := al.Type().(*types.Pointer).Elem().Underlying().(*types.Array); ok && at.Len() == 4 {
+							for _, ref := range *al.Referrers() {
+								if s2, ok := ref.(*ssa.Slice); ok {
+									for _, r2 := range *s2.Referrers() {
+										if c2, ok := r2.(*ssa.Call); ok && eventName(c2) == "binary.littleEndian.Uint32" {
+											get32 = true
+										}
+									}
+								}
+							}
 						}
-						return true
-					})
-					if uses && rd == nil && !isTestFile(p, f) {
-						rd = fd
 					}
 				}
 			}
 		}
 	}
-	if rd == nil {
-		r.Unknown("anchor:index-reader", "?", "no reader method uses IndexStart")
-		return
-	}
-	rpos := p.Position(rd.Pos())
-	mul4, subBase, addStart, get32 := false, false, false, false
-	ast.Inspect(rd.Body, func(n ast.Node) bool {
-		switch x := n.(type) {
-		case *ast.BinaryExpr:
-			if x.Op == token.MUL {
-				if c, ok := constInt(info, x.Y); ok && c == 4 {
-					mul4 = true
-				}
-				if c, ok := constInt(info, x.X); ok && c == 4 {
-					mul4 = true
-				}
-			}
-			if x.Op == token.SUB {
-				if se, ok := ast.Unparen(x.Y).(*ast.SelectorExpr); ok && se.Sel.Name == "BaseIndex" {
-					subBase = true
-				}
-			}
-			if x.Op == token.ADD {
-				if se, ok := ast.Unparen(x.X).(*ast.SelectorExpr); ok && se.Sel.Name == "IndexStart" {
-					addStart = true
-				}
-			}
-		case *ast.CallExpr:
-			if order, m, ok := byteOrderCall(info, x); ok && m == "Uint32" && order == "LittleEndian" {
-				get32 = true
-			}
-		}
-		return true
-	})
 	r.Check(mul4 && subBase && addStart && get32, "reader:offset", rpos, "reader computes IndexStart + (idx - BaseIndex)*4 and decodes a little-endian uint32",
 		fmt.Sprintf("index lookup arithmetic differs from the documented layout: stride*4=%v idx-BaseIndex=%v IndexStart+=%v LE32=%v", mul4, subBase, addStart, get32))
 	// frame length = len(offsets)*4
